@@ -146,7 +146,7 @@ pub fn hunt<S: MlDsa>(seed: u64, nsign: usize, nfull: usize, out: &mut Out) {
     let (_pk, sk) = S::keygen_seed(&p.arr32());
     let skb = S::sk_bytes(&sk);
     let (e1, e2) = (S::GAMMA1 - S::beta(), S::GAMMA2 - S::beta());
-    let mut rare: Vec<(i64, Vec<u8>, [u8; 32], Vec<u8>, usize)> = vec![];
+    let mut rare: Vec<(i64, Vec<u8>, [u8; 32], Vec<u8>, usize, u32)> = vec![];
     for i in 0..nsign {
         let mp = p.bytes(8 + (i % 40));
         let rnd = p.arr32();
@@ -158,18 +158,28 @@ pub fn hunt<S: MlDsa>(seed: u64, nsign: usize, nfull: usize, out: &mut Out) {
         out.ev(json!({"ev": "SignAttempts", "set": S::SET, "attempts": att}));
         // rarity score
         let mut score = evs.len() as i64;
+        let mut classes = 0u32;
         for a in evs.iter() {
-            if a[5] == 2 { score += 1000; }
-            if a[1] == (e1 - 1) as i64 || a[1] == e1 as i64 { score += 300; }
-            if a[2] == (e2 - 1) as i64 || a[2] == e2 as i64 { score += 300; }
-            if a[4] == S::OMEGA as i64 || a[4] == S::OMEGA as i64 + 1 { score += 300; }
-            if a[3] == S::GAMMA2 as i64 - 1 || a[3] == S::GAMMA2 as i64 { score += 300; }
+            if a[5] == 2 { score += 1000; classes |= 1; }
+            if a[1] == (e1 - 1) as i64 || a[1] == e1 as i64 { score += 300; classes |= 2; }
+            if a[2] == (e2 - 1) as i64 || a[2] == e2 as i64 { score += 300; classes |= 4; }
+            if a[4] == S::OMEGA as i64 || a[4] == S::OMEGA as i64 + 1 { score += 300; classes |= 8; }
+            if a[3] == S::GAMMA2 as i64 - 1 || a[3] == S::GAMMA2 as i64 { score += 300; classes |= 16; }
         }
-        rare.push((score, mp, rnd, sig, evs.len()));
+        rare.push((score, mp, rnd, sig, evs.len(), classes));
     }
+    // one representative of every rarity CLASS is recomputed in full (a slip on one rare path must not hide behind another)
     rare.sort_by(|a, b| b.0.cmp(&a.0));
-    for (_, mp, rnd, sig, n) in rare.into_iter().take(nfull) {
-        out.ev(json!({"ev": "SignInternal", "hunted": true, "sk": jbytes(&skb), "mp": jbytes(&mp), "rnd": jbytes(&rnd), "sig": jbytes(&sig), "attempts": n}));
+    let mut picked: Vec<usize> = vec![];
+    for class in 0..6usize {
+        let hit = rare.iter().enumerate().position(|(i, r)| !picked.contains(&i) && match class {
+            0 => r.5 & 1 != 0, 1 => r.5 & 2 != 0, 2 => r.5 & 4 != 0, 3 => r.5 & 8 != 0, 4 => r.5 & 16 != 0, _ => true });
+        if let Some(i) = hit { picked.push(i); }
+    }
+    for i in 0..rare.len() { if picked.len() >= nfull.max(6) { break; } if !picked.contains(&i) { picked.push(i); } }
+    for i in picked.into_iter().take(nfull.max(6)) {
+        let (_, mp, rnd, sig, n, _) = &rare[i];
+        out.ev(json!({"ev": "SignInternal", "hunted": true, "sk": jbytes(&skb), "mp": jbytes(mp), "rnd": jbytes(rnd), "sig": jbytes(sig), "attempts": n}));
     }
 }
 
@@ -299,6 +309,11 @@ pub fn verify<S: MlDsa>(seed: u64, nacc: usize, nrand: usize, stress: bool, out:
             // 4: commitment hash bit, wrong mode / ph / ctx / message, over-long contexts
             let mut s2 = sig.clone(); s2[p.below((S::LAMBDA / 4) as u64) as usize] ^= 1 << p.below(8);
             emit_verify::<S>(out, "4 c~ bit flipped", &pkb, &m, &s2, &ctx, mode, false);
+            // first, 32nd, 33rd and last byte of the commitment hash (its length depends on the parameter set)
+            for pos in [0usize, 31, 32.min(S::LAMBDA / 4 - 1), S::LAMBDA / 4 - 1] {
+                let mut s3 = sig.clone(); s3[pos] ^= 0x80;
+                emit_verify::<S>(out, &format!("4 c~ byte {} changed", pos), &pkb, &m, &s3, &ctx, mode, false);
+            }
             emit_verify::<S>(out, "4 other mode", &pkb, &m, &sig, &ctx, MODES[(i + 1) % 4], false);
             let mut c2 = ctx.clone(); c2.push(0);
             if c2.len() <= 255 { emit_verify::<S>(out, "4 ctx extended", &pkb, &m, &sig, &c2, mode, false); }
